@@ -11,6 +11,8 @@ RULES = {"C07.a", "C07.b", "C07.c", "C05.d"}
 def check(ctx):
     ctx.assume("valid configuration: at least one mode, transitions to existing modes, set_mode with an existing mode (property quantifier)")
     kernel.analyze(ctx, RULES)
-    cursor.analyze(ctx, RULES)
+    # cursor coupling (C09.a) and reset totality (C10.b) are also progress conditions: a stale last_position
+    # makes advance_to refuse to move
+    cursor.analyze(ctx, RULES | {"C09.a", "C10.b", "C10.a"})
     from . import panics
     panics.analyze(ctx, {"C07.d", "C07.e"})
